@@ -111,6 +111,52 @@ def constructs():
     return C
 
 
+def _real_compile(form, in_fn=False):
+    """Replay on the real compiler: opaque children become calls of a run-time stub, the whole form goes through hy_compile."""
+    from hy.compiler import hy_compile
+    from hv import concrete
+    inst = concrete.instantiate(form)
+    if in_fn:
+        inst = E(S("fn"), List([]), inst)
+    tree = hy_compile(inst, types.ModuleType("hv_c34_replay"), import_stdlib=False)
+    return hy.repr(inst).lstrip("'"), tree
+
+
+def _ast_identifiers(tree):
+    out = set()
+    for n in ast.walk(tree):
+        for f in ("id", "arg", "attr", "name", "asname", "rest", "module"):
+            v = getattr(n, f, None)
+            if isinstance(v, str):
+                out.update(v.split("."))
+        if isinstance(n, (ast.Global, ast.Nonlocal)):
+            out.update(n.names)
+        if isinstance(n, ast.MatchClass):
+            out.update(n.kwd_attrs)
+    return out
+
+
+def replay_naming(builder, in_fn, name):
+    try:
+        src, tree = _real_compile(builder(name), in_fn)
+    except Exception as e:  # noqa: BLE001
+        return {"confirmed": False, "error": f"{type(e).__name__}: {e}"[:200]}
+    ids = _ast_identifiers(tree)
+    want = mangle(name)
+    bad = (want not in ids and not any(i.startswith("_hy_") and want in i for i in ids)) or (name != want and name in ids)
+    return {"confirmed": bool(bad), "input": src, "observed": f"identifiers in the compiled module: {sorted(ids)}", "expected": f"{want!r} and not {name!r}"}
+
+
+def replay_binding(builder, trip, m):
+    try:
+        src, tree = _real_compile(builder(*trip))
+        src0, tree0 = _real_compile(builder(m, m, m))
+    except Exception as e:  # noqa: BLE001
+        return {"confirmed": False, "error": f"{type(e).__name__}: {e}"[:200]}
+    a, b = ast.unparse(tree), ast.unparse(tree0)
+    return {"confirmed": a != b, "input": src, "observed": a, "expected": f"the module compiled from {src0}: {b}"}
+
+
 def check_construct(label, builder, in_fn, cls, name):
     want = mangle(name)
     form = structural.position(builder(name), 2)
@@ -291,7 +337,8 @@ def binding_identity(chk):
             chk.ob(f"binding/{label}/{cls}: every spelling of one identifier compiles like the identifier itself", not bad, "structural",
                    "exhaustive_finite", detail=None if not bad else
                    f"names (binder, definer, reference) = {bad[0][0]}\nemitted: {bad[0][1][1]}\nwith every name written as {m!r}: {bad[0][2][1]}",
-                   witness=None if not bad else {"names": list(bad[0][0]), "template": label})
+                   witness=None if not bad else {"names": list(bad[0][0]), "template": label},
+                   replay=None if not bad else replay_binding(b, bad[0][0], m))
             chk.ob(f"scope-interface/{label}/{cls}: every name handed to the scope bookkeeping is a fixed point of hy.mangle", not scope_bad,
                    "structural", "exhaustive_finite", detail=None if not scope_bad else
                    f"names = {scope_bad[0][0]}: {scope_bad[0][1]} received {scope_bad[0][2]!r}",
@@ -360,7 +407,8 @@ def run(chk):
                 # a construct may reject a name class with a Hy error (e.g. keyword as import alias); that is not a naming bug
                 chk.ob(f"name/{label}/{cls}", True, "structural", "proved", detail=detail)
             else:
-                chk.ob(f"name/{label}/{cls}", okk, "structural", "proved", detail=detail)
+                chk.ob(f"name/{label}/{cls}", okk, "structural", "proved", detail=detail,
+                       replay=None if okk else replay_naming(builder, in_fn, name))
     runtime_contracts(chk)
     binding_identity(chk)
     chk.fn("hy/compiler.py::compile_symbol, compile_expression, _compile_collect", "hy/core/result_macros.py::compile_attribute_access, "
